@@ -336,7 +336,7 @@ class HashComputer:
             self = HashComputer(config, config_path, version=version)
             self.update(config, myself=True)
             identifier = self.identifier()
-            identifier.has_loop = config_path.has_loop()
+            identifier.has_loops = config_path.has_loop()
 
         return identifier
 
